@@ -7,6 +7,8 @@ witness replays exactly).  Byte strings are carried as latin-1 ``str``:
     target        request-target path as sent on the wire, bytes-as-latin-1 ('/a%20b', '/\\xc3\\xa9')
     query         raw query string, bytes-as-latin-1 ('' = no query)
     headers       ordered [[name, value], ...] exactly as a server's HTTP parser hands them over
+                  (RFC 9110 5.5: optional whitespace around the field value already removed); the simulator
+                  legs may re-add such whitespace (style 'ows') or pass None for '' (style 'none_for_empty')
                   (arbitrary name casing, repeats, no surrounding whitespace in values)
     body          bytes-as-latin-1
     chunks        None or [sizes]: how the body arrives on ASGI (http.request events)
@@ -339,6 +341,19 @@ def sim_kwargs(req, default_ua):
             if d:
                 headers = [h for h in headers if h[0].lower() != 'cookie']
                 kw['cookies'] = d
+    ows = st.get('ows')
+    if ows or st.get('none_for_empty'):
+        # On the wire a field value may be surrounded by optional whitespace (SP / HTAB); a server removes it before
+        # the application sees the value (RFC 9110 5.5), so the abstract request - and with it both driver legs -
+        # carries the stripped value.  The simulators document the same: values are stripped, None stands for ''.
+        pre, post = ows or ['', '']
+        dressed = []
+        for k, v in headers:
+            if v == '' and st.get('none_for_empty'):
+                dressed.append((k, None))
+            else:
+                dressed.append((k, pre + v + post))
+        headers = dressed
     if st.get('headers_as_dict') and unique:
         kw['headers'] = dict(headers)
     else:
